@@ -21,7 +21,7 @@ pub fn prop() -> Prop {
             "line_height is LineHeight::to_absolute(font height) as documented (pixels, or percent of the font height rounded down)",
             "the concatenation clause is only claimed for fonts without spacing (all built-in fonts)",
         ],
-        subs: vec![Sub::tape("layout", 70, 24_000, 1_000_000, layout)],
+        subs: vec![Sub::tape("layout", 70, 200_000, 3_000_000, layout)],
     }
 }
 
